@@ -1050,6 +1050,20 @@ class Lazy:
         return fa() if c.branch(cond) else fb()
 
 
+class Maybe:
+    """Optional field value: `value` if `cond` else None.  Resolved (the path forks) when the field is first read."""
+
+    def __init__(self, cond, value):
+        self.cond = cond
+        self.value = value
+
+    def resolve(self):
+        return self.value if cur().branch(self.cond) else None
+
+    def __repr__(self):
+        return f"Maybe({self.cond}, {self.value!r})"
+
+
 class Obj:
     """Record with named fields; `cls` is the qualified class name (or a model tag)."""
 
